@@ -59,6 +59,8 @@ def inner_nest(ix, R, pfx, site, params):
     if al is None or al.head != 'alloc' or z is None or z.extra[0] != 'fn:zeros' or \
             not fl.tab.equal(call_kw(z, 'shape', 0), spec(fl, '(ngrid, ngauss)', env2)):
         why.append('per-g buffer is %s' % fmt(fl, buf))
+    if st.guards:
+        why.append('accumulation is conditional on %s' % [g.text() for g in st.guards])
     others = [e for e in fl.of('store') if e is not st and atom_of(fl, e.target) is not None
               and atom_of(fl, e.target).head == 'idx' and fl.tab.equal(atom_of(fl, e.target).args[0], buf)]
     if others:
@@ -86,7 +88,7 @@ def run(ix, R):
                 loop_matches(fl, au.loops[1], '0', 'ngauss', env2)):
             why.append('loops %s' % [unparse(l.iter_ast) for l in au.loops])
         init = [e for e in fl.of('assign') if e.name == au.name and e.op is None]
-        if len(init) != 1 or init[0].loops != (au.loops[0],) or init[0].value.const() != 0:
+        if len(init) != 1 or init[0].loops != (au.loops[0],) or init[0].value.const() != 0 or init[0].guards:
             why.append('accumulator is not zeroed once per wavenumber')
         R.check('1.trans', 'ALG', site,
                 'transmittance = sum_g w_g exp(-tau_g), accumulator zeroed per wavenumber',
@@ -154,6 +156,9 @@ def run(ix, R):
         kt = C02.emission_core(ix, R, '3', site, ktab=True)
         if kt:
             C02.ktable_terms(ix, R, kt, '3')
+    # both modes fill the per-gas opacity through the same weighting statement (C03.2.abs)
+    from rules.C03 import absorption_weighting
+    absorption_weighting(ix, R)
     # ---- 4. mode switch
     switch_obligations(ix, R)
 
@@ -210,10 +215,31 @@ def switch_obligations(ix, R):
             isk = 'KTableCache' in fmt(fl, e.value)
             if g is None or not fl.tab.equal(g.rf, code(fl, 'self._use_ktables')) or g.positive != isk:
                 why.append(unparse(e.node))
+            if len(e.guards) != 1 or e.loops:
+                why.append('%s is under %s' % (unparse(e.node), [x.text() for x in e.guards]))
         uk = [e for e in fl.of('store') if fmt(fl, e.target) == 'self._use_ktables']
-        if len(uk) != 1 or not fl.tab.equal(uk[0].value, spec(fl, "GlobalCache()['opacity_method'] == 'ktables'")):
+        if len(uk) != 1 or not fl.tab.equal(uk[0].value, spec(fl, "GlobalCache()['opacity_method'] == 'ktables'")) \
+                or uk[0].guards or uk[0].loops or (st and fl.events.index(uk[0]) > fl.events.index(st[0])):
             why.append('_use_ktables = %s' % [fmt(fl, e.value) for e in uk])
-        R.check('4.abs', 'DOM', site, 'prepare_each picks KTableCache iff _use_ktables (set from the switch)',
+        # quadrature weights: reset on every call, then taken from the first k-table of this call
+        ws = [e for e in fl.of('store') if fmt(fl, e.target) == 'self.weights']
+        rs = [e for e in ws if not e.loops]
+        tk = [e for e in ws if e.loops]
+        if len(rs) != 1 or rs[0].guards or fmt(fl, rs[0].value) != 'None':
+            why.append('self.weights is not reset to None at the start of every call')
+        if len(tk) != 1:
+            why.append('%d stores of self.weights inside the gas loop' % len(tk))
+        else:
+            t = tk[0]
+            gl = t.loops[0]
+            gas = fl.tab.atom('elem', (gl.iter_rf[0], gl.index))
+            wantv = spec(fl, 'self._opacity_cache[gas].weights', {'gas': gas})
+            if not fl.tab.equal(t.value, wantv):
+                why.append('self.weights = %s' % fmt(fl, t.value))
+            if len(t.guards) != 1 or not t.guards[0].positive or not fl.tab.equal(
+                    t.guards[0].rf, spec(fl, '_and(self._use_ktables, self.weights is None)')):
+                why.append('self.weights is taken under %s' % [x.text() for x in t.guards])
+        R.check('4.abs', 'DOM', site, 'prepare_each sets _use_ktables from the switch first, picks KTableCache iff it is set, resets the quadrature weights and takes them from the first k-table of the call',
                 len(st) == 2 and not why, key='; '.join(why) or 'stores %d' % len(st),
                 detail='; '.join(why), loc=f.loc())
 
@@ -239,4 +265,15 @@ EQUIVALENTS = [
     ('k-commute', A, 'transtemp += math.exp(-tau_temp[wn, g]) * weights[g]', 'transtemp += weights[g] * np.exp(-1.0 * tau_temp[wn, g])'),
     ('k-log-minus', A, 'tau[layer, wn] += -math.log(transtemp)', 'tau[layer, wn] -= math.log(transtemp)'),
     ('k-log-inv', A, 'tau[layer, wn] += -math.log(transtemp)', 'tau[layer, wn] += math.log(1.0 / transtemp)'),
+]
+# statements that implement an unconditional part of the documented behaviour: wrapped in an `if`
+# (so that they may be skipped) each must be reported - generated and checked by the thorough tier
+UNCONDITIONAL = [
+    ('taurex/contributions/absorption.py', 'tau_temp[wn, g] += sigma[k + layer, wn, g]'),
+    ('taurex/contributions/absorption.py', 'transtemp += math.exp('),
+    ('taurex/contributions/absorption.py', 'tau[layer, wn] += -math.log(transtemp)'),
+    ('taurex/contributions/absorption.py', 'transtemp = 0.0'),
+    ('taurex/contributions/absorption.py', "self._use_ktables = GlobalCache()['opacity_method'] == 'ktables'"),
+    ('taurex/contributions/absorption.py', 'self.weights = xsec.weights'),
+    ('taurex/model/emission.py', 'tau_temp[wn, g] += sigma[k + layer, wn, g]'),
 ]
